@@ -107,13 +107,15 @@ structure RunShape where
   outerAfter : Bool     -- … after it
   recovers : Bool       -- a deferred `recover()` in `Run` turns a panic inside the native action into an error return
   evmAfterWrite : Bool  -- on some path through the closure an EVM call on the same StateDB follows a keeper write
+  dropsActionError : Bool  -- the error `ExecuteNativeAction` returns is overwritten / never tested: `Run` goes on and reports success
   deriving DecidableEq, Repr
 
 /-- the shapes for which a precompile call is all-or-nothing (`Props/C09.lean`: sufficient, and each condition necessary).
 A keeper write AFTER the native action is not in the list: it sits above the action's journal entry, whose snapshot
 restores the store as it was before the action — the order of the two statements is what matters. -/
-def RunShape.clean (sh : RunShape) : Bool := !sh.outerBefore && !sh.recovers && !sh.evmAfterWrite
-def RunShape.tidy : RunShape := { outerBefore := false, outerAfter := false, recovers := false, evmAfterWrite := false }
+def RunShape.clean (sh : RunShape) : Bool := !sh.outerBefore && !sh.recovers && !sh.evmAfterWrite && !sh.dropsActionError
+def RunShape.tidy : RunShape :=
+  { outerBefore := false, outerAfter := false, recovers := false, evmAfterWrite := false, dropsActionError := false }
 
 /-- `StateDB.Transfer`: a native action that cannot fail once `CanTransfer` passed -/
 def St.transfer (s : St N) (f : N → N) : St N :=
@@ -199,7 +201,10 @@ def runPre (ev : Eval N) (roCtx roCall : Bool) (gas req : Nat) (sh : RunShape) (
   | (.ok, s1) =>
     let s2 : St N := { s1 with journal := .native s0.native :: s1.journal }
     (.ok, if sh.outerAfter then s2.poke out else s2, gas - req)
-  | (.err, s1) => (.fail, { s1 with native := s0.native }, 0)
+  | (.err, s1) =>
+    -- `ExecuteNativeAction` has put the snapshot back; a `Run` that loses the error carries on as after a success
+    if sh.dropsActionError then (.ok, { s1 with native := s0.native }, gas - req)
+    else (.fail, { s1 with native := s0.native }, 0)
   | (.panic, s1) => if sh.recovers then (.fail, s1, 0) else (.abort, s1, 0)
 
 /-- what `evm.Call*` and the caller's code do with the callee's result: `inl` = caller continues, `inr` = caller halts -/
